@@ -141,7 +141,7 @@ Theorem C10_double_q_mean :
         else qval (snd qq) s a)) /\
   (forall s a, qval (dq_mean qq) s a = (qval (fst qq) s a + qval (snd qq) s a) / 2) /\
   (forall s, In s (qkeys (dq_mean qq)) <-> In s (qkeys (fst qq)) \/ In s (qkeys (snd qq))).
-Proof. exact double_q_mean. Qed.
+Proof. intros m alpha. exact (double_q_mean m (fun _ _ => 0) alpha). Qed.
 Print Assumptions C10_double_q_mean.
 
 Theorem C10_double_q_pick :
@@ -158,7 +158,7 @@ Theorem C10_step_keys :
   (In x (qkeys (ql_step m alpha q e)) <-> In x (qkeys q) \/ x = st_s e \/ x = st_ns e) /\
   (In x (qkeys (sarsa_step m alpha q e)) <-> In x (qkeys q) \/ x = st_s e \/ x = st_ns e) /\
   (In x (qkeys (esarsa_step m alpha eps q e)) <-> In x (qkeys q) \/ x = st_s e \/ x = st_ns e).
-Proof. exact step_keys. Qed.
+Proof. intros m alpha eps. exact (step_keys m (fun _ _ => 0) alpha eps). Qed.
 Print Assumptions C10_step_keys.
 
 (* the greedy policy: uniform over exactly the maximal-Q actions at table states, over all available
@@ -175,12 +175,15 @@ Theorem C10_td_policy :
 Proof. exact td_policy. Qed.
 Print Assumptions C10_td_policy.
 
-(* non-vacuity: a concrete stochastic 3-state MDP and a two-episode experience on which the check accepts,
-   all hypotheses of the interval / absorbing theorems hold, and the bounds are attained non-trivially *)
+(* non-vacuity: a concrete stochastic 3-state MDP and a three-episode experience (one episode starting in the
+   absorbing state, one self-loop step) on which the check accepts for Q-learning and double Q-learning,
+   the hypotheses of the interval and absorbing theorems hold (I = [-2,4]), and the fold moves the table *)
 Theorem C10_nonvacuous :
   @c10_check Q NumQ exM exQ0 (1#2)%Q (1#20)%Q LQ exEvs exKeys exIQ exPol (1#1000000000000)%Q = all_true6 /\
-  @c10_check Q NumQ exM exQ0 (1#2)%Q (1#20)%Q LDouble exEvs exKeysD exIQD exPolD (1#1000000000000)%Q = all_true6 /\
-  (forall s a, -2 <= qval (train exMR exQ0R (1/2) (1/20) LESarsa exEvsR) s a <= 4) /\
-  qval (train exMR exQ0R (1/2) (1/20) LSarsa exEvsR) 0%nat 0%nat <> 1.
+  @c10_check Q NumQ exM exQ0 (1#2)%Q (1#20)%Q LDouble exEvs exKeysD exIQD exPol (1#1000000000000)%Q = all_true6 /\
+  Forall (ev_ok (-1) 2) (evsR exEvs) /\
+  valid_experience (mR 3 2 exP exRw exAv exAb exIni (1#2)%Q) (evsR exEvs) = true /\
+  (forall L s a, -2 <= qval (qR 3 2 exP exRw exAv exAb exIni (1#2)%Q exQ0 (1#2)%Q (1#20)%Q L exEvs) s a <= 4) /\
+  qval (qR 3 2 exP exRw exAv exAb exIni (1#2)%Q exQ0 (1#2)%Q (1#20)%Q LSarsa exEvs) 0%nat 0%nat = 1/4.
 Proof. exact ex_nonvacuous. Qed.
 Print Assumptions C10_nonvacuous.
